@@ -872,9 +872,19 @@ func runHistory(h *history) (out output) {
 						}
 					}
 				}
+				// refused = FAILED with a signature-error text; a transaction whose signature AND proof are
+				// both invalid carries the proof error instead (verifyProofs runs after verifySign and
+				// overwrites invalidTx[i]), which counts as refused for a transaction the oracle expects
+				isExp := map[int]bool{}
+				for _, j := range expected {
+					isExp[j] = true
+				}
 				var refused []int
 				for j, rc := range rs {
-					if rc.Status == pb.Receipt_FAILED && sigErr[string(rc.Ret)] {
+					if rc.Status != pb.Receipt_FAILED {
+						continue
+					}
+					if sigErr[string(rc.Ret)] || (isExp[j] && strings.Contains(string(rc.Ret), "proof")) {
 						refused = append(refused, j)
 					}
 				}
